@@ -138,4 +138,43 @@ def Comp.WFL : List Comp → Prop
   | c :: cs => Comp.WF c ∧ Comp.WFL cs
 end
 
+/-! ### the structural instantiation of value equality
+
+  The model sees of a value only (class name, `to_ical()` text, parameters).  On that view the
+  per-class `__eq__` methods of prop.py are:
+
+  * the TimeBase classes (vDDDTypes, vDate, vDatetime, vDuration, vPeriod, vTime):
+    `params == other.params and dt == other.dt` for any two TimeBase objects, i.e. same text and
+    the same parameter map (Parameters is a CaselessDict, so insertion order is ignored);
+  * vDDDLists compares its element list, each element a vDDDTypes with its own parameters:
+    same text and the same parameter map (exact for lists whose elements share one zone, which
+    is all a vDDDLists can express in iCalendar text);
+  * every other class (str / int / float subclasses, vCategory, vGeo, vUTCOffset, vBinary, vRecur)
+    compares the Python value and ignores parameters: same class name and same text.
+
+  This is the one place where the model's equality is *chosen* rather than derived from the
+  source; the `w_eq` correspondence op validates it against the real `__eq__` methods on every
+  generated pair of trees (copies, permutations, every single-value perturbation).  It is the
+  kernel of the function `veqKey`, hence an equivalence relation, so the hypotheses of the C20
+  theorems are satisfiable (`ICal.C20.veqStructural_equiv`).
+-/
+
+def timeBaseKinds : List Str :=
+  ["vDDDTypes", "vDate", "vDatetime", "vDuration", "vPeriod", "vTime"].map String.toList
+
+def insertParam (kv : Str × PVal) : Params → Params
+  | [] => [kv]
+  | x :: xs => if strLt x.1 kv.1 then x :: insertParam kv xs else kv :: x :: xs
+
+/-- the parameter map as a key-sorted list (keys are distinct) -/
+def sortParams (p : Params) : Params := p.foldr insertParam []
+
+/-- what value equality looks at -/
+def veqKey (v : Val) : Str × Str × Params :=
+  if timeBaseKinds.contains v.kind then ("TimeBase".toList, v.text, sortParams v.params)
+  else if v.kind == "vDDDLists".toList then (v.kind, v.text, sortParams v.params)
+  else (v.kind, v.text, [])
+
+def veqStructural (a b : Val) : Bool := decide (veqKey a = veqKey b)
+
 end ICal
